@@ -116,9 +116,14 @@ TransposeFn(a) == IF Rank(a) >= 2 THEN D(TRUE, Front(a.shape, 2) \o <<Last(a.sha
 
 (* FeArray.broadcast(value, Ne, nPg, tensor_ndim): value is a plain array whose LEADING axes are (), (Ne,) or (Ne, nPg) *)
 (* and whose trailing tensor_ndim axes are the tensor; arg = tensor_ndim (> 0, the unambiguous form)                     *)
+(* arg = 0 (no tensor axes declared): a 1-D coefficient whose length is the number of ELEMENTS is one value per element - also *)
+(* when the number of Gauss points happens to be the same -, otherwise a length equal to the number of Gauss points is one value *)
+(* per Gauss point, any other length is a constant vector; a 2-D (Ne, nPg) array is the field itself                              *)
 BroadcastCoef(v, ne, npg, tn) ==
     LET s == v.shape  n == Len(s) IN
-    IF tn > n THEN Err
+    IF tn = 0 THEN (IF n = 1 THEN (IF s[1] = ne \/ s[1] = npg THEN D(TRUE, <<ne, npg>>) ELSE D(TRUE, <<ne, npg, s[1]>>))
+                    ELSE IF n >= 2 /\ s[1] = ne /\ s[2] = npg THEN D(TRUE, s) ELSE D(TRUE, <<ne, npg>> \o s))
+    ELSE IF tn > n THEN Err
     ELSE LET ld == SubSeq(s, 1, n - tn)  tl == SubSeq(s, n - tn + 1, n) IN
          IF ld = <<>> \/ ld = <<ne>> \/ ld = <<ne, npg>> THEN D(TRUE, <<ne, npg>> \o tl) ELSE Err
 
@@ -153,6 +158,9 @@ Cases ==
                     v \in {vv \in {D(FALSE, l \o t) : l \in {<<>>} \cup {<<x>> : x \in NeSet \cup NpgSet} \cup {<<x, y>> : x \in NeSet, y \in NpgSet},
                                                        t \in SeqsOf(Dims, 1) \cup SeqsOf(Dims, 2)} : Len(vv.shape) >= tn}}   \* the value has at least the declared tensor axes
                  : tn \in 1..2}
+    \cup {[op |-> "broadcast", a |-> D(TRUE, <<ne, np>>), b |-> D(FALSE, sh), arg |-> 0] :
+              ne \in IF "broadcast" \in Ops THEN NeSet ELSE {}, np \in NpgSet,
+              sh \in {<<x>> : x \in NeSet \cup NpgSet \cup Dims} \cup {<<x, y>> : x \in NeSet, y \in NpgSet}}
 
 (* both fields live on the same mesh group; either may be a partial field - one value per element (Ne, 1, ...) or per Gauss *)
 (* point (1, nPg, ...) - which broadcasts along the other axis                                                              *)
